@@ -257,7 +257,11 @@ def oracle_case(VG, x, t, missing, horizontal, transforms=True, paths=True):
     if not transforms:
         return out
     # positive affine maps of values and times
-    for (a, b, c, d) in ((2, 3, 1, 0), (Fr(1, 2), -1, 2, 5), (1, 0, Fr(1, 2), -3)):
+    # (incl. extreme power-of-two rescalings: exact in float32, slopes scale by 2^-22 .. 2^22 —
+    # an absolute tolerance anywhere in the slope comparison would show here)
+    for (a, b, c, d) in ((2, 3, 1, 0), (Fr(1, 2), -1, 2, 5), (1, 0, Fr(1, 2), -3),
+                         (Fr(1, 2 ** 22), 0, 1, 0), (1, 0, 2 ** 22, 0),
+                         (Fr(1, 2 ** 10), 0, 2 ** 12, 0), (2 ** 20, 0, Fr(1, 2 ** 4), 0)):
         x2 = [None if v is None else a * v + b for v in x]
         t2 = [c * v + d for v in tt]
         if t is None and (c, d) == (1, 0):
